@@ -757,6 +757,68 @@ pub fn run_c16(o: &Opts) -> Report {
         }
     }
 
+    // ---- f64::to_string: the hypotheses of the injectivity theorems on the float printer --------
+    // (every output is a token; on the well-formed numbers of [0,1] it uses digits, '.', '-' only and is injective)
+    {
+        let mut seen: HashMap<String, u64> = HashMap::new();
+        let mut bad_token = 0u64;
+        let mut bad_chars = 0u64;
+        let mut collisions = 0u64;
+        let mut first = String::new();
+        let n_f = if o.thorough { 200_000 } else { 20_000 };
+        let mut probe = |f: f64, wf: bool, first: &mut String| {
+            let s = f.to_string();
+            if s.is_empty() || s.chars().any(|c| c.is_whitespace()) {
+                bad_token += 1;
+                if first.is_empty() {
+                    *first = format!("{:?} -> {:?}", f, s);
+                }
+            }
+            if wf {
+                if !s.chars().all(|c| c.is_ascii_digit() || c == '.' || c == '-') {
+                    bad_chars += 1;
+                    if first.is_empty() {
+                        *first = format!("{:?} -> {:?}", f, s);
+                    }
+                }
+                if let Some(b) = seen.get(&s) {
+                    if *b != f.to_bits() {
+                        collisions += 1;
+                        if first.is_empty() {
+                            *first = format!("{:016x} and {:016x} -> {:?}", b, f.to_bits(), s);
+                        }
+                    }
+                }
+                seen.insert(s, f.to_bits());
+            }
+        };
+        for f in [f64::NAN, f64::INFINITY, f64::NEG_INFINITY, -0.0, 1e300, -1e-300, f64::MAX, f64::MIN_POSITIVE, 5e-324] {
+            probe(f, false, &mut first);
+        }
+        for i in 0..n_f {
+            let f = match i % 4 {
+                0 => gen_float(&mut rng),
+                1 => (rng.next() >> 11) as f64 / (1u64 << 53) as f64,
+                2 => f64::from_bits(rng.next() % 0x3FF0_0000_0000_0001),
+                _ => {
+                    // neighbours: adjacent bit patterns must print differently
+                    let b = rng.next() % 0x3FF0_0000_0000_0000;
+                    probe(f64::from_bits(b), true, &mut first);
+                    f64::from_bits(b + 1)
+                }
+            };
+            probe(f, wf_float(f), &mut first);
+        }
+        drop(probe);
+        cx.rep.evaluations += n_f as u64;
+        cx.rep.extra.push(("float_display_not_a_token".into(), bad_token.to_string()));
+        cx.rep.extra.push(("float_display_foreign_characters_in_unit_interval".into(), bad_chars.to_string()));
+        cx.rep.extra.push(("float_display_collisions_in_unit_interval".into(), collisions.to_string()));
+        if bad_token + bad_chars + collisions != 0 {
+            cx.fail("std-float", "model assumption: f64::to_string yields a token; on [0,1] only digits '.' '-' and injectively", first, "0 violations".into(), format!("{} / {} / {}", bad_token, bad_chars, collisions), None);
+        }
+    }
+
     // ---- post_process_whitespace on arbitrary strings ----------------------------------------
     let ws_chars: Vec<char> = (0u32..=0x10FFFF).filter_map(char::from_u32).filter(|c| c.is_whitespace()).collect();
     let mut posts: Vec<String> = vec!["".into(), " ".into(), "  ".into(), "a".into(), " a ".into(), "a  b".into(), " a  b  ".into(), "\ta\n\nb\r".into(), "a \t b".into(), "\u{3000}a\u{3000}\u{a0}b\u{2028}".into()];
